@@ -169,6 +169,61 @@ func (q *QueryLabelsService) promFingerprints(match []string) (shared.SQLRequest
 	return &clickhouse_planner.MultiStreamSelectPlanner{Mains: selects}, nil
 }
 
+// PromLabels returns the label names of the series selected by one of the match[] selectors (of all series
+// without selectors).
+func (q *QueryLabelsService) PromLabels(ctx context.Context, match []string, startMs int64, endMs int64,
+	labelsType uint16) (chan string, error) {
+	fingerprints, err := q.promFingerprints(match)
+	if err != nil {
+		return nil, err
+	}
+	if fingerprints == nil {
+		return q.Labels(ctx, startMs, endMs, labelsType)
+	}
+	conn, err := q.Session.GetDB(ctx)
+	if err != nil {
+		return nil, err
+	}
+	versionInfo, err := dbVersion.GetVersionInfo(ctx, conn.Config.ClusterName != "", conn.Session)
+	if err != nil {
+		return nil, err
+	}
+	plannerCtx := shared.PlannerContext{
+		IsCluster:   conn.Config.ClusterName != "",
+		From:        time.Unix(startMs/1000, 0),
+		To:          time.Unix(endMs/1000, 0),
+		Ctx:         ctx,
+		CHDb:        conn.Session,
+		Type:        uint8(labelsType),
+		VersionInfo: versionInfo,
+	}
+	tables.PopulateTableNames(&plannerCtx, conn)
+	fpSel, err := fingerprints.Process(&plannerCtx)
+	if err != nil {
+		return nil, err
+	}
+	withFpSel := sql.NewWith(fpSel, "fp_sel")
+	sel := sql.NewSelect().With(withFpSel).Distinct(true).
+		Select(sql.NewRawObject("key")).
+		From(sql.NewSimpleCol(plannerCtx.TimeSeriesGinTableName, "samples")).
+		AndWhere(
+			sql.NewIn(sql.NewRawObject("type"), sql.NewIntVal(int64(labelsType)), sql.NewIntVal(int64(0))),
+			sql.Ge(sql.NewRawObject("date"),
+				sql.NewStringVal(FormatFromDate(time.Unix(startMs/1000, 0)))),
+			sql.Le(sql.NewRawObject("date"),
+				sql.NewStringVal(time.Unix(endMs/1000, 0).UTC().Format("2006-01-02"))),
+			sql.NewIn(sql.NewRawObject("fingerprint"), sql.NewWithRef(withFpSel)),
+		)
+	query, err := sel.String(&sql.Ctx{
+		Params: map[string]sql.SQLObject{},
+		Result: map[string]sql.SQLObject{},
+	})
+	if err != nil {
+		return nil, err
+	}
+	return q.GenericLabelReq(ctx, query)
+}
+
 func (q *QueryLabelsService) PromValues(ctx context.Context, label string, match []string, startMs int64, endMs int64,
 	labelsType uint16) (chan string, error) {
 	fingerprints, err := q.promFingerprints(match)
